@@ -464,8 +464,13 @@ class NP:
         if not ab and isinstance(c, GVec):
             # np.where(mask) of a per-row boolean vector: the positions where it holds; only usable as an index into a vector of the same
             # layout (v[np.where(mask)] = x  is  v[mask] = x)
-            c.is_where_result = True
-            return (c,)
+            # represented as the vector of the positions where the mask holds (aligned with every other array filtered by the same mask)
+            from .frames import RowPos, _filter_space
+            pres = z3.And(c.present, sym.to_bool(c.val))
+            idx = GVec(RowPos(c.space).val, _filter_space(c.space, mask=pres), pres)
+            idx.target_space = c.space
+            idx.where_of = c
+            return (idx,)
         if not ab:
             if isinstance(c, _np.ndarray) and c.dtype == object and any(isinstance(x, SB) for x in c.flat):
                 return MaskIndex(c) if c.ndim != 1 else (MaskIndex(c),)
@@ -548,7 +553,17 @@ class NP:
         return _np.amax(x, **k)
     min = amin
     max = amax
-    def any(self, x, **k):
+    def all(self, x, axis=None, **k):
+        if isinstance(x, RowArr) and axis == 1:
+            return GVec(SB(z3.And(*[sym.to_bool(v) for v in x.vals])), x.space, x.present)
+        if _has_sym(x): raise Unsupported("np.all has no symbolic model")
+        return _np.all(x, axis=axis, **k) if axis is not None else _np.all(x, **k)
+
+    def any(self, x, axis=None, **k):
+        if isinstance(x, RowArr) and axis == 1:
+            return GVec(SB(z3.Or(*[sym.to_bool(v) for v in x.vals])), x.space, x.present)
+        if axis is not None:
+            k["axis"] = axis
         if x is None: return False
         if _has_sym(x): raise Unsupported("np.any on symbolic data")
         return _np.any(x, **k)
